@@ -182,7 +182,7 @@ def findNearestPositiveDefiniteMatrix(covariance: np.ndarray) -> np.ndarray:
     """
     # Factor the nearest positive definite matrix
     nearest_pd = nearestPD(covariance)
-    cholesky_p = cholesky(nearest_pd)
+    cholesky_p = cholesky(nearest_pd, lower=True)
 
     # Save the original covariance, nearest PD matrix, factorized matrix
     description = {
